@@ -14,7 +14,7 @@ import (
 )
 
 var profile = histeng.Profile{MaxTargets: 5, Edits: []string{"edit-content", "bump-nonce"},
-	ExtSteps: []string{"clear-marker", "clear-marker", "set-marker", "toggle-noestablish", "set-skipout", "set-slow", "clear-switches"},
+	ExtSteps: []string{"clear-marker", "clear-marker", "set-marker", "toggle-noestablish", "set-skipout", "set-skipout", "set-slow", "set-selfkill", "set-wrongestablish", "set-wrongestablish", "clear-switches"},
 	Checks:   true, Timeouts: true, MinSteps: 4, MaxSteps: 12, SubsetBuilds: true}
 
 func run(h histeng.History) (pbt.Result, error) {
@@ -24,7 +24,7 @@ func run(h histeng.History) (pbt.Result, error) {
 		res.Classes = append(res.Classes, c)
 	}
 	sort.Strings(res.Classes)
-	res.NonTrivial = obs.Classes["ext:clear-marker"] || obs.Classes["ext:set-skipout"] || obs.Classes["ext:set-slow"]
+	res.NonTrivial = obs.Classes["ext:clear-marker"] || obs.Classes["ext:set-skipout"] || obs.Classes["ext:set-slow"] || obs.Classes["ext:set-selfkill"] || obs.Classes["ext:set-wrongestablish"]
 	if err != nil && strings.HasPrefix(err.Error(), "harness:") {
 		return pbt.Result{Discard: true}, nil
 	}
